@@ -332,6 +332,51 @@ def add_dataflow(body, costs, room, writers):
     return dataflow(body, init_user=("none", False, False), node_fn=node_fn, edge_fn=edge_fn)
 
 
+def check_update_tells_tracked(rep, fl, rule="R01.3"):
+    """`SampledLFU::update(k, ..)` answers false exactly when k has no entry in the cost table: `add` reads a false as
+    "not tracked" and goes on to admit and charge the key (R01.3), the processor then writes the queued value over
+    whatever is resident.  Every `false` is returned where the lookup of k found nothing, every `true` where it found
+    the entry."""
+    facts = fl.facts
+    ub = facts.body(SLFU + "::update", required=False)
+    if ub is None:
+        rep.missing(rule, fl, "SampledLFU::update")
+        return
+    b = facts.flat(ub)
+    at, entry = dataflow(b)
+    kc = norm(F(V("self"), "key_costs"))
+    kname = V(b.local_name.get(2, "k"))
+
+    def lookup(x):
+        x = norm(b.expand(x))
+        return x[0] == "call" and x[1].rsplit("::", 1)[-1] in ("get_mut", "get", "contains_key", "entry", "remove") and len(x[2]) >= 2 and norm(x[2][0]) == kc and strip_casts(norm(x[2][1])) in (kname, ("deref", kname))
+
+    def verdict(s):
+        # True: found, False: absent, None: unknown on this path
+        for a, v in s.lits:
+            if a[0] == "variant" and a[2] in ("Some", "None") and lookup(a[1]):
+                return (a[2] == "Some") == bool(v)
+            if lookup(a) and a[1].endswith("contains_key"):
+                return bool(v)
+        return None
+    bad = []
+    n = 0
+    for e in [norm(b.def_expr(rbi, rsi, True)) for rbi, rsi in b.defs.get(0, [])]:
+        pass
+    for rbi, rsi in b.defs.get(0, []):
+        e = norm(b.def_expr(rbi, rsi, True))
+        sts = [expand_state(b, s_, hist=True) for s_ in at.get((rbi, rsi), set())]
+        if e[0] == "const" and isinstance(e[1], (bool, int)) and e[2] == "bool":
+            n += 1
+            want = bool(e[1])
+            if not sts or any(verdict(s_) is not want for s_ in sts):
+                bad.append("returns %s on a path where the key was %s" % (str(want).lower(), "found" if not want else "not (known to be) found"))
+        else:
+            bad.append("returns %s: not a constant decided by the lookup" % show(e))
+    rep.check(not bad and n >= 2, rule, fl, ub, "false iff untracked", "update answers false where the cost table has no entry for k, true where it has (%d returns)" % n,
+              "SampledLFU::update %s: add() takes a false for `not tracked`, admits and charges the key again, and the queued value is written over the resident one" % "; ".join(bad[:2]))
+
+
 def check_room_left(rep, fl, rule="R01.6"):
     """room_left(cost) is max_cost - used - cost, negative amounts included: its sign decides between the fast path
     and the eviction loop (C01: the admission re-establishes used <= max_cost; C07: "when there is room")."""
@@ -393,6 +438,7 @@ def check_C01(rep, fl):
             continue
         for bi_, t_ in calls_to(ob, SLFU + "::increment"):
             outside.append((ob, t_))
+    check_update_tells_tracked(rep, fl)
     rep.check(not outside, "R01.3", fl, SLFU + "::increment", "callers", "a new key is charged (SampledLFU::increment) only by add(), behind its absent / size / room tests",
               "%s also charges a key through SampledLFU::increment, without add()'s tests: the key may already be charged, be larger than max_cost, or not fit"
               % ", ".join(sorted({o.spath for o, _ in outside})), loc=outside[0][1]["sp"] if outside else None)
